@@ -35,9 +35,15 @@ Definition all_eq (v : Z) (l : list Z) : bool := forallb (Z.eqb v) l.
 Definition prop_op (op : zop) (o : list Z) : bool :=
   let '(code, a) := op in
   match code with
-  | 1 | 2 => seven_ok o
+  | 1 => seven_ok o
+  | 2 =>
+      (* ... and the estimate is never below the number of coupons collected (HIP and ICON, every branch) *)
+      seven_ok o && PrimFloat.leb (u2f (zN (nth 3 a 0))) (F (nth 0 o NAN_BITS))
   | 3 =>
-      if is_err o then true else
+      if is_err o then
+        (* the crate may reject only a theta outside (0, 1] *)
+        match a with [_; th; _] => negb (PrimFloat.ltb 0 (F th) && PrimFloat.leb (F th) 1) | _ => false end
+      else
       match o, a with
       | [l1; l2; l3; u1; u2; u3], [n; th; nds] =>
           let e := bz (PrimFloat.div (u2f (zN n)) (F th)) in
@@ -46,10 +52,18 @@ Definition prop_op (op : zop) (o : list Z) : bool :=
       | _, _ => false
       end
   | 7 => forallb not_nan o && PrimFloat.leb 0 (F (nth 2 o 0))
-  | 4 | 5 =>
-      seven_ok (firstn 7 o) &&
+  | 4 =>
+      (10 <=? Z.of_nat (length o)) && seven_ok (firstn 7 o) &&
       (* an empty sketch estimates 0 with both bounds 0 *)
       (if nth 7 o 0 =? 0 then true else all_eq 0 (firstn 7 o))
+  | 5 =>
+      (10 <=? Z.of_nat (length o)) && seven_ok (firstn 7 o) &&
+      (if nth 7 o 0 =? 0 then true else all_eq 0 (firstn 7 o)) &&
+      PrimFloat.leb (u2f (zN (nth 8 o 0))) (F (nth 0 o NAN_BITS))
+  | 9 =>
+      (* HllUnion's own estimate and bounds are ordered and nested, and they are those of its result sketch *)
+      (15 <=? Z.of_nat (length o)) && seven_ok (firstn 7 o) && seven_ok (firstn 7 (skipn 7 o)) &&
+      list_eqb Z.eqb (firstn 7 o) (firstn 7 (skipn 7 o))
   | 6 =>
       match a with
       | [lgk; n; seed; p; mode] =>
@@ -68,7 +82,8 @@ Definition prop_op (op : zop) (o : list Z) : bool :=
 Fixpoint all2 (f : zop -> list Z -> bool) (ops : list zop) (obs : list (list Z)) : bool :=
   match ops, obs with
   | op :: r, o :: ro => f op o && all2 f r ro
-  | _, _ => true
+  | [], [] => true
+  | _, _ => false          (* an operation without an observation (or vice versa) is never "fine" *)
   end.
 Definition prop_ok (c : case) : bool := all2 prop_op (c_ops c) (c_obs c).
 
@@ -139,13 +154,14 @@ Definition tie_op (op : zop) (o : list Z) : bool :=
       | _, _ => false
       end
   | 5 =>
-      (* the bounds are those of the HIP or of the ICON estimator for the sketch's own coupon count *)
+      (* the bounds are those of the estimator the sketch's merge flag selects (HIP / ICON), for its own coupon count;
+         the ICON estimate itself is recomputed on the polynomial branch *)
       match a, o with
       | [lgk; _; _; _], e :: rest =>
-          let c := nth 7 rest 0 in
-          if c <? 0 then true else
-          let b := firstn 6 rest in
-          zeqb_list b (cpc_bounds_of false (zN lgk) (zN c) (F e)) || zeqb_list b (cpc_bounds_of true (zN lgk) (zN c) (F e))
+          let c := nth 7 rest (-1) in
+          let icon := negb (nth 8 rest 0 =? 0) in
+          (0 <=? c) && zeqb_list (firstn 6 rest) (cpc_bounds_of icon (zN lgk) (zN c) (F e)) &&
+          (if icon then opt_eq (icon_estimate (zN lgk) (zN c)) e else true)
       | _, _ => false
       end
   | 6 =>
